@@ -51,7 +51,7 @@ def loadHexString (src : HexSrc) (n : Int) : PyRes (Option Bytes) :=
   else if n < 1 then .error .spsdk
   else match src with
     | .none => .ok none
-    | .bytes b => .ok (some b)          -- returned unchanged: the size of a bytes source is NOT checked
+    | .bytes b => if (b.length : Int) = n then .ok (some b) else .error .spsdk   -- unchanged, size enforced
     | .int v =>
       if v < 0 then .error .other
       else (match valueToBytes v.toNat true n.toNat false with
@@ -61,11 +61,11 @@ def loadHexString (src : HexSrc) (n : Int) : PyRes (Option Bytes) :=
       match valueToInt (with0x s) with
       | none => .error .spsdk
       | some v =>
-        (match valueToBytes v true n.toNat false with
+        (match valueToBytes v false n.toNat false with    -- `align_to_2n=False`: minimal width vs expected size
          | .error _ => .error .spsdk
          | .ok b => .ok (some b))
 
-/-- width `value_to_bytes(v, align_to_2n=True)` needs: minimal, from 3 on rounded up to a multiple of 4 (0 for 0) -/
+/-- width `value_to_bytes(v, align_to_2n=True)` needs (int sources only): minimal, from 3 on rounded up to a multiple of 4 (0 for 0) -/
 def widthA (v : Nat) : Nat := if byteLen v > 2 then (byteLen v + 3) / 4 * 4 else byteLen v
 
 /-- lower-case hex text of a byte string (`bytes.hex()`) -/
